@@ -20,13 +20,13 @@ const PARAMETERS: &[Parameter] = &[
 ];
 
 fn encode_gzip(value: Value, compression_level: Value) -> Resolved {
-    // TODO consider removal options
-    #[allow(clippy::cast_sign_loss, clippy::cast_possible_truncation)]
-    let level = compression_level.try_integer()? as u32;
-    let compression_level = if level > MAX_COMPRESSION_LEVEL {
-        return Err(format!("compression level must be <= {MAX_COMPRESSION_LEVEL}").into());
-    } else {
-        flate2::Compression::new(level)
+    // The level is validated before it is narrowed, so that a negative or huge integer is
+    // rejected instead of being wrapped or truncated into the accepted range.
+    let level = compression_level.try_integer()?;
+    let compression_level = match u32::try_from(level) {
+        Ok(level) if level <= MAX_COMPRESSION_LEVEL => flate2::Compression::new(level),
+        Err(_) if level < 0 => return Err("compression level must be >= 0".into()),
+        _ => return Err(format!("compression level must be <= {MAX_COMPRESSION_LEVEL}").into()),
     };
 
     let value = value.try_bytes()?;
@@ -108,7 +108,9 @@ impl FunctionExpression for EncodeGzipFn {
     fn type_def(&self, state: &state::TypeState) -> TypeDef {
         let is_compression_level_valid_constant = if let Some(level) = &self.compression_level {
             match level.resolve_constant(state) {
-                Some(Value::Integer(level)) => level <= i64::from(MAX_COMPRESSION_LEVEL),
+                Some(Value::Integer(level)) => {
+                    (0..=i64::from(MAX_COMPRESSION_LEVEL)).contains(&level)
+                }
                 _ => false,
             }
         } else {
